@@ -188,7 +188,8 @@ impl World {
     fn restart(self, rep: &mut Report) -> Result<World, String> {
         let World { live, cfg, boot_height, tower_id, sent, tables, .. } = self;
         let Live { mut sys, source, monitor } = live;
-        std::mem::forget(monitor);
+        let dropped_monitor = catch_unwind(AssertUnwindSafe(move || drop(monitor)));
+        let _ = dropped_monitor;
         let db_path = sys.db_path.clone();
         // harness-side naming state survives (it is not the tower's)
         let chain = std::mem::take(&mut sys.chain);
@@ -199,7 +200,13 @@ impl World {
         let blobs = std::mem::take(&mut sys.blobs);
         let users_seen = std::mem::take(&mut sys.users_seen);
         let next_block = sys.next_block;
-        std::mem::forget(sys); // poisoned mutexes, and Drop would delete the file
+        // the dead process's handles are closed (as the OS would), the file stays
+        KEEP_DB.lock().unwrap().push(db_path.clone());
+        let closed = catch_unwind(AssertUnwindSafe(move || drop(sys)));
+        KEEP_DB.lock().unwrap().retain(|p| p != &db_path);
+        if closed.is_err() {
+            return Err("closing the dead tower's handles panicked".into());
+        }
         let _ = source;
         // last known block from the file
         let lkb = {
@@ -251,6 +258,8 @@ impl World {
 fn gen_history(rng: &mut Rng, n: usize) -> Vec<XOp> {
     let mut ops = vec![XOp::Reg(1)];
     let mut junk = 0u32;
+    // a transaction is mined at most once (consensus: no two transactions of the chain share an id)
+    let mut mined: BTreeSet<u32> = BTreeSet::new();
     for _ in 0..n {
         let op = match rng.weighted(&[10, 34, 6, 40]) {
             0 => XOp::Reg(rng.range(1, 2) as u32),
@@ -281,6 +290,7 @@ fn gen_history(rng: &mut Rng, n: usize) -> Vec<XOp> {
                     if rng.chance(1, 3) {
                         txs.push(1000 + rng.range(1, 3) as u32 * 10);
                     }
+                    txs.retain(|t| mined.insert(*t));
                     blocks.push(txs);
                 }
                 let fail = if nb > 1 && rng.chance(1, 5) { Some(rng.range(1, nb as u64 - 1) as usize) } else { None };
@@ -323,6 +333,8 @@ pub fn run(seed: u64, thorough: bool, rep: &mut Report) {
         let mut w = World::new(cfg, 100, &boot, rep);
         let mut points: Vec<Vec<(String, bool)>> = vec![];
         let mut accepted: Vec<BTreeSet<(u32, u32)>> = vec![];
+        // what the uninterrupted run has handed to the node by the end of each operation
+        let mut sent_upto: Vec<BTreeSet<u32>> = vec![];
         let mut acc_now = BTreeSet::new();
         for op in &ops {
             reset_counters();
@@ -332,6 +344,7 @@ pub fn run(seed: u64, thorough: bool, rep: &mut Report) {
                 acc_now.insert((*loc, *user));
             }
             accepted.push(acc_now.clone());
+            sent_upto.push(w.sent.clone());
             let d = w.live.sys.dump();
             rep.line("tw dump", &d);
         }
@@ -398,7 +411,8 @@ pub fn run(seed: u64, thorough: bool, rep: &mut Report) {
             // a crash while blocks are being processed is explored twice: the node's chain as it was, and with
             // what the tower had already handed to the node mined in one more block while the tower was down
             for (j, mined) in (0..npts).flat_map(|j| [(j, false), (j, true)]) {
-                if mined && !matches!(op, XOp::Poll { .. }) {
+                if mined && (!matches!(op, XOp::Poll { .. }) || sent_upto[i].is_empty()) {
+                    // nothing can have been handed to the node by then: the variant is the plain one
                     continue;
                 }
                 restarts += 1;
@@ -525,10 +539,18 @@ pub fn run(seed: u64, thorough: bool, rep: &mut Report) {
                     // uninterrupted run: same responded / watched key sets (a request that died before its
                     // acknowledgement and is retried may legitimately change what follows: only block
                     // processing is compared)
-                    let ka: BTreeSet<_> = fin.trackers.keys().cloned().collect();
-                    let kb: BTreeSet<_> = reference_final.trackers.keys().cloned().collect();
-                    let aa: BTreeSet<_> = fin.appts.keys().cloned().collect();
-                    let ab: BTreeSet<_> = reference_final.appts.keys().cloned().collect();
+                    let mut ka: BTreeSet<_> = fin.trackers.keys().cloned().collect();
+                    let mut kb: BTreeSet<_> = reference_final.trackers.keys().cloned().collect();
+                    let mut aa: BTreeSet<_> = fin.appts.keys().cloned().collect();
+                    let mut ab: BTreeSet<_> = reference_final.appts.keys().cloned().collect();
+                    if mined {
+                        // one more block was mined than in the uninterrupted run: requests made after the restart see
+                        // another window of recent blocks, so only what had been accepted before the crash is compared
+                        let pre: BTreeSet<(u32, u32)> = if i > 0 { accepted[i - 1].clone() } else { BTreeSet::new() };
+                        for set in [&mut ka, &mut kb, &mut aa, &mut ab] {
+                            set.retain(|k| pre.contains(k));
+                        }
+                    }
                     if matches!(op, XOp::Poll { .. }) && (ka != kb || aa != ab) {
                         let prev_poll = ops[..i].iter().rev().find(|o| matches!(o, XOp::Poll { .. }));
                         let partial = matches!(op, XOp::Poll { fail: Some(_), .. }) || matches!(prev_poll, Some(XOp::Poll { fail: Some(_), .. }));
@@ -538,7 +560,8 @@ pub fn run(seed: u64, thorough: bool, rep: &mut Report) {
                         // nothing: the appointment stays watched, no tracker follows the penalty
                         let confirmed: BTreeSet<u32> = w.live.sys.chain.iter().flat_map(|b| b.3.iter().cloned()).collect();
                         let untracked_confirmed = mined && aa == ab && ka.is_subset(&kb) && kb.difference(&ka).all(|k| {
-                            match fin.appts.get(k).and_then(|a| w.live.sys.blobs.get(&a.0)) {
+                            // (the blob as it was when the process died: without a tracker a later submission may replace it)
+                            match before.appts.get(k).or(fin.appts.get(k)).and_then(|a| w.live.sys.blobs.get(&a.0)) {
                                 Some(BlobSpec::Enc { penalty, .. }) => w.sent.contains(penalty) && confirmed.contains(penalty),
                                 _ => false,
                             }
